@@ -34,6 +34,19 @@ and the role matching refuses it):
   * `while A and <excess dict>:` = `while A: if not <excess dict>: break`; `return X if c else None` = `if c: return X`
     (`_return_paths`); a value returned through a local = returned directly; keyword = positional arguments of
     `AvailabilityRatio`; the amount to distribute written directly into the share expression.
+  * helpers are inlined whatever their kind: methods, `@staticmethod`s (`self._h(…)` / `Cls._h(…)`) and module-level
+    functions (also as `map(_h, xs)`), with keyword arguments and literal defaults; a literal flag argument decides the
+    `if`s on that parameter (`_fold_const_ifs`); the local a helper returns takes the name the caller assigns it to;
+    keyword arguments of calls to methods of the class become positional (`_positional_calls`);
+  * boolean locals are put back at every use (`_inline_bool_locals`); conditional expressions become `if` statements
+    (`_lift_ifexp`, also `(f if c else g)(args)`); `(x,) = xs` = `x = next(iter(xs))`; a leading `if c: break` of a `for`
+    whose test does not depend on the loop variable = `continue` (`_leading_break_to_continue`);
+  * nested `if`s are rebuilt as the reduced decision tree over their atomic tests in order of first appearance and written
+    back with equal arms merged (`_canon_ifs`): `elif` chains, split `or` conditions, a three-way branch folded into a
+    two-way one with a conditional expression, De Morgan and guard clauses give the same tree; `a > b` / `b < a` are one atom;
+  * the PARAMETER ORDER of a definition whose operands can be swapped without changing the meaning (comparisons) is fixed by
+    the role of an operand where the dataflow knows it (`order=` of `add`), and a comparison is rendered with the earlier
+    parameter on its left (`_orient`), so `-d <= p` and `p >= -d` give the same Lean term.
 An operand (parameter of a definition) may only be a name / attribute chain / subscript / `x.as_…()` / an aggregate
 over a generator; any other call inside an extracted expression (`abs(…)`, `round(…)`) is refused.
 """
@@ -147,12 +160,49 @@ class _Tr(py2lean.Translator):
         return super().prop(n, env)
 
 
-def lean_def(name: str, node: ast.expr, arity: int, kind: str, doc: str) -> str:
-    """kind: 'val' (Rat-valued) or 'prop' (decidable Prop)."""
+def _orient(node: ast.AST) -> ast.AST:
+    """A comparison whose right side holds the earlier parameter is mirrored (`-a1 <= a0` -> `a0 >= -a1`): `x < y` and
+    `y > x` are the same test, so the rendered term does not depend on which way round the source spells it."""
+    mirror = {ast.Lt: ast.Gt, ast.Gt: ast.Lt, ast.LtE: ast.GtE, ast.GtE: ast.LtE, ast.Eq: ast.Eq, ast.NotEq: ast.NotEq}
+
+    def first(n: ast.AST) -> int:
+        ks = [int(x.id[1:]) for x in ast.walk(n) if isinstance(x, ast.Name) and x.id[:1] == "a" and x.id[1:].isdigit()]
+        return min(ks) if ks else 10 ** 6
+
+    for c in ast.walk(node):
+        if isinstance(c, ast.Compare) and len(c.ops) == 1 and type(c.ops[0]) in mirror and first(c.comparators[0]) < first(c.left):
+            c.left, c.comparators, c.ops = c.comparators[0], [c.left], [mirror[type(c.ops[0])]()]
+    return node
+
+
+def lean_def(name: str, node: ast.expr, arity: int, kind: str, doc: str, order: dict | None = None) -> str:
+    """kind: 'val' (Rat-valued) or 'prop' (decidable Prop).  `order`: position -> predicate on the source text of an operand
+    that must take that parameter position (a ROLE known from the dataflow); the other operands fill the remaining positions
+    in order of appearance."""
     lv = _Leaves()
     node = lv.visit(ast.parse(ast.unparse(node), mode="eval").body)
     if len(lv.names) != arity:
         raise Bad(f"{name}: expected {arity} operands, found {sorted(lv.names)} in `{doc}`")
+    if order:
+        srcs = list(lv.names)
+        fixed: dict[int, str] = {}
+        for pos, pred in order.items():
+            pos = pos % arity
+            hit = [x for x in srcs if pred(x)]
+            if len(hit) != 1:
+                raise Bad(f"{name}: operand for position {pos}: expected exactly one candidate, found {len(hit)} in `{doc}`")
+            fixed[pos] = hit[0]
+        rest = [x for x in srcs if x not in fixed.values()]
+        new_order = [fixed[i] if i in fixed else rest.pop(0) for i in range(arity)]
+        ren = {lv.names[x]: f"b{i}" for i, x in enumerate(new_order)}
+        for n in ast.walk(node):
+            if isinstance(n, ast.Name) and n.id in ren:
+                n.id = ren[n.id]
+        for n in ast.walk(node):
+            if isinstance(n, ast.Name) and n.id[:1] == "b" and n.id[1:].isdigit():
+                n.id = "a" + n.id[1:]
+        lv.names = {x: f"a{i}" for i, x in enumerate(new_order)}
+    node = _orient(node)
     params = " ".join(f"({p} : Rat)" for p in lv.names.values())
     tr = _Tr({})
     env = py2lean.Env()
@@ -198,30 +248,97 @@ class _Subst(ast.NodeTransformer):
         return node
 
 
-class _InlineHelpers(ast.NodeTransformer):
-    """`self._helper(a, b)` -> body expression of a same-class method that only returns an expression."""
+def _is_static(m: ast.FunctionDef) -> bool:
+    return [ast.unparse(d) for d in m.decorator_list] == ["staticmethod"]
 
-    def __init__(self, cls: ast.ClassDef | None):
-        self.helpers: dict[str, ast.FunctionDef] = {}
-        for m in (cls.body if cls is not None else []):
-            if isinstance(m, ast.FunctionDef):
-                body = _no_doc(m.body)
-                if len(body) == 1 and isinstance(body[0], ast.Return) and body[0].value is not None \
-                        and not m.args.vararg and not m.args.kwarg and not m.args.kwonlyargs:
-                    self.helpers[m.name] = m
+
+def _simple_sig(m: ast.FunctionDef) -> bool:
+    return not (m.args.vararg or m.args.kwarg or m.args.kwonlyargs or m.args.posonlyargs)
+
+
+def _callee(call: ast.Call, cls: ast.ClassDef | None, tree: ast.AST | None) -> tuple[ast.FunctionDef, list[str]] | None:
+    """The function a call certainly refers to, with its parameters (without `self`): `self.m(…)` / `Cls.m(…)` for a
+    plain or static method of the class, `f(…)` for an undecorated module-level function that no local rebinds."""
+    f = call.func
+    if isinstance(f, ast.Attribute) and isinstance(f.value, ast.Name) and cls is not None and f.value.id in ("self", cls.name):
+        for m in cls.body:
+            if isinstance(m, ast.FunctionDef) and m.name == f.attr and _simple_sig(m):
+                if _is_static(m):
+                    return m, [a.arg for a in m.args.args]
+                if not m.decorator_list and m.args.args and m.args.args[0].arg == "self" and f.value.id == "self":
+                    return m, [a.arg for a in m.args.args][1:]
+        return None
+    if isinstance(f, ast.Name) and isinstance(tree, ast.Module):
+        for m in tree.body:
+            if isinstance(m, ast.FunctionDef) and m.name == f.id and not m.decorator_list and _simple_sig(m):
+                return m, [a.arg for a in m.args.args]
+    return None
+
+
+def _bind_args(call: ast.Call, m: ast.FunctionDef, params: list[str]) -> dict[str, ast.expr] | None:
+    """parameter -> argument expression (positional, keyword, literal defaults); `None` if it cannot be established"""
+    if any(isinstance(a, ast.Starred) for a in call.args) or any(k.arg is None for k in call.keywords) or len(call.args) > len(params):
+        return None
+    bind: dict[str, ast.expr] = dict(zip(params, call.args))
+    for k in call.keywords:
+        if k.arg not in params or k.arg in bind:
+            return None
+        bind[k.arg] = k.value  # type: ignore[index]
+    defaults = dict(zip(params[len(params) - len(m.args.defaults):], m.args.defaults)) if m.args.defaults else {}
+    for q in params:
+        if q not in bind:
+            if q in defaults and isinstance(defaults[q], ast.Constant):
+                bind[q] = copy.deepcopy(defaults[q])
+            else:
+                return None
+    return bind
+
+
+def _expr_body(m: ast.FunctionDef) -> ast.expr | None:
+    body = _no_doc(m.body)
+    if len(body) == 1 and isinstance(body[0], ast.Return) and body[0].value is not None:
+        return body[0].value
+    return None
+
+
+class _InlineHelpers(ast.NodeTransformer):
+    """`self._helper(a, b)` / `Cls._helper(a)` / `_helper(a)` -> the body expression of a method of the same class, a static
+    method or a module-level function that only returns an expression (`map(_helper, xs)` -> `map(lambda p: <body>, xs)`)."""
+
+    def __init__(self, cls: ast.ClassDef | None, tree: ast.AST | None = None, locals_: set[str] | None = None):
+        self.cls, self.tree, self.locals = cls, tree, locals_ or set()
+
+    def _target(self, call: ast.Call):
+        if isinstance(call.func, ast.Name) and call.func.id in self.locals:
+            return None
+        c = _callee(call, self.cls, self.tree)
+        if c is None or c[0].name in SITES or _expr_body(c[0]) is None:
+            return None
+        return c
 
     def visit_Call(self, node: ast.Call) -> ast.AST:  # noqa: N802
         self.generic_visit(node)
-        f = node.func
-        if isinstance(f, ast.Attribute) and isinstance(f.value, ast.Name) and f.value.id == "self" and f.attr in self.helpers:
-            m = self.helpers[f.attr]
-            params = [a.arg for a in m.args.args][1:]
-            if node.keywords or len(node.args) != len(params):
-                return node
-            body = _no_doc(m.body)[0]
-            expr = copy.deepcopy(body.value)  # type: ignore[attr-defined]
-            return _Subst(dict(zip(params, node.args))).visit(expr)
-        return node
+        if ast.unparse(node.func) == "map" and len(node.args) == 2 and not node.keywords and isinstance(node.args[0], (ast.Name, ast.Attribute)):
+            probe = ast.Call(func=node.args[0], args=[ast.Name(id="_x", ctx=ast.Load())], keywords=[])
+            c = self._target(probe)
+            if c is not None and len(c[1]) == 1:
+                lam = ast.Lambda(args=ast.arguments(posonlyargs=[], args=[ast.arg(arg=c[1][0])], kwonlyargs=[], kw_defaults=[], defaults=[]),
+                                 body=copy.deepcopy(_expr_body(c[0])))
+                return ast.copy_location(ast.Call(func=node.func, args=[lam, node.args[1]], keywords=[]), node)
+            return node
+        c = self._target(node)
+        if c is None:
+            return node
+        m, params = c
+        bind = _bind_args(node, m, params)
+        if bind is None or not all(_is_pure(a) or isinstance(a, ast.Name) for a in bind.values()):
+            return node
+        expr = copy.deepcopy(_expr_body(m))
+        bound_inside = {n.id for n in ast.walk(expr) if isinstance(n, ast.Name) and isinstance(n.ctx, ast.Store)} | \
+            {a.arg for l in ast.walk(expr) if isinstance(l, ast.Lambda) for a in l.args.args}
+        if any(_loaded_names(a) & bound_inside for a in bind.values()):
+            return node  # an argument would be captured by a comprehension / lambda variable of the helper
+        return _Subst(bind).visit(expr)
 
 
 # Methods that `generate` looks up itself: calls of these are never inlined into their callers.
@@ -250,7 +367,30 @@ def _names_bound(stmts: list[ast.stmt]) -> set[str]:
     return out
 
 
-def _inline_procedures(fn: ast.FunctionDef, cls: ast.ClassDef | None) -> None:
+def _fold_const_ifs(stmts: list[ast.stmt]) -> list[ast.stmt]:
+    """`if True: A else: B` -> A (after a literal flag was put in for a parameter)"""
+    def const(e: ast.expr) -> bool | None:
+        if isinstance(e, ast.Constant) and isinstance(e.value, bool):
+            return e.value
+        if isinstance(e, ast.UnaryOp) and isinstance(e.op, ast.Not):
+            v = const(e.operand)
+            return None if v is None else not v
+        return None
+
+    out: list[ast.stmt] = []
+    for s in stmts:
+        for f in ("body", "orelse", "finalbody"):
+            sub = getattr(s, f, None)
+            if isinstance(sub, list) and sub and isinstance(sub[0], ast.stmt):
+                setattr(s, f, _fold_const_ifs(sub))
+        if isinstance(s, ast.If) and const(s.test) is not None:
+            out.extend(s.body if const(s.test) else s.orelse)
+        else:
+            out.append(s)
+    return out
+
+
+def _inline_procedures(fn: ast.FunctionDef, cls: ast.ClassDef | None, tree: ast.AST | None = None) -> None:
     """Undo "extract method": `t = self._h(a, …)` / `self._h(a, …)` / `return self._h(a, …)` where `_h` is a method of
     the same class (not one of SITES) whose body is a statement list with a single `return` at its very end (or none).
 
@@ -258,16 +398,13 @@ def _inline_procedures(fn: ast.FunctionDef, cls: ast.ClassDef | None) -> None:
     or a pure expression); a parameter it does rebind must be an in/out value — the argument is a plain name and the
     helper's result is assigned back to that same name — and is then replaced by that name too.  Other locals of the
     helper keep their names unless they clash with a name of the caller.  Anything else is left as a call."""
-    if cls is None:
+    if cls is None and tree is None:
         return
-    methods = {m.name: m for m in cls.body if isinstance(m, ast.FunctionDef) and m.name not in SITES and m is not fn
-               and m.name != fn.name and not m.decorator_list and m.args.args and m.args.args[0].arg == "self"
-               and not (m.args.vararg or m.args.kwarg or m.args.kwonlyargs or m.args.posonlyargs)}
 
     def eligible(m: ast.FunctionDef) -> tuple[list[ast.stmt], ast.expr | None] | None:
         body = _no_doc(m.body)
         rets = [n for s in body for n in ast.walk(s) if isinstance(n, ast.Return)]
-        if any(isinstance(n, (ast.Yield, ast.YieldFrom, ast.Await, ast.FunctionDef, ast.AsyncFunctionDef, ast.Lambda,
+        if any(isinstance(n, (ast.Yield, ast.YieldFrom, ast.Await, ast.FunctionDef, ast.AsyncFunctionDef,
                               ast.Global, ast.Nonlocal, ast.ClassDef)) for s in body for n in ast.walk(s)):
             return None
         if not rets:
@@ -277,25 +414,20 @@ def _inline_procedures(fn: ast.FunctionDef, cls: ast.ClassDef | None) -> None:
         return None
 
     def expand(call: ast.Call, targets: list[str] | None) -> tuple[list[ast.stmt], ast.expr | None] | None:
-        f = call.func
-        if not (isinstance(f, ast.Attribute) and isinstance(f.value, ast.Name) and f.value.id == "self" and f.attr in methods):
+        c = _callee(call, cls, tree)
+        if c is None or c[0].name in SITES or c[0] is fn or c[0].name == fn.name:
             return None
-        m = methods[f.attr]
+        if isinstance(call.func, ast.Name) and call.func.id in _names_bound(fn.body):
+            return None
+        m, params = c
         el = eligible(m)
         if el is None:
             return None
         body, ret = el
         if len(body) < 1:  # single `return <expr>`: expression-level inlining handles it
             return None
-        params = [a.arg for a in m.args.args][1:]
-        if any(isinstance(a, ast.Starred) for a in call.args) or any(k.arg is None for k in call.keywords):
-            return None
-        bind: dict[str, ast.expr] = dict(zip(params, call.args))
-        for k in call.keywords:
-            if k.arg not in params or k.arg in bind:
-                return None
-            bind[k.arg] = k.value  # type: ignore[index]
-        if len(call.args) > len(params) or set(bind) != set(params):
+        bind = _bind_args(call, m, params)
+        if bind is None:
             return None
         rebound = _names_bound(body)
         ret_names = ([e.id if isinstance(e, ast.Name) else None for e in ret.elts] if isinstance(ret, ast.Tuple)
@@ -319,7 +451,16 @@ def _inline_procedures(fn: ast.FunctionDef, cls: ast.ClassDef | None) -> None:
         caller_names = {n.id for n in ast.walk(fn) if isinstance(n, ast.Name)} | {a.arg for a in fn.args.args}
         for v in sorted(rebound - set(params)):
             rename[v] = v if v not in caller_names else f"{v}__{m.name.strip('_')}"
-        new_body = [_Subst(subst).visit(_Rename(rename).visit(copy.deepcopy(s))) for s in body]
+        # the local the helper returns takes the name of the variable the caller assigns the result to
+        if isinstance(ret, ast.Name) and ret.id in rebound and ret.id not in params and targets is not None and len(targets) == 1:
+            t = targets[0]
+            taken = (set(rename.values()) - {rename[ret.id]}) | set().union(*[_loaded_names(a) for a in bind.values()], set())
+            if t not in taken and t not in {n.id for s in body for n in ast.walk(s) if isinstance(n, ast.Name)} - {ret.id}:
+                rename[ret.id] = t
+        lam_args = {a.arg for s in body for l in ast.walk(s) if isinstance(l, ast.Lambda) for a in l.args.args}
+        if lam_args & ({k for k, v in rename.items() if v != k} | set(subst) | set(rename.values()) - set(rename)):
+            return None  # a lambda parameter of the helper would capture / be captured by a renamed name
+        new_body = _fold_const_ifs([_Subst(subst).visit(_Rename(rename).visit(copy.deepcopy(s))) for s in body])
         new_ret = _Subst(subst).visit(_Rename(rename).visit(copy.deepcopy(ret))) if ret is not None else None
         return new_body, new_ret
 
@@ -427,6 +568,26 @@ def _ends_block(stmts: list[ast.stmt]) -> bool:
     return bool(stmts) and isinstance(stmts[-1], (ast.Continue, ast.Return, ast.Break, ast.Raise))
 
 
+def _leading_break_to_continue(fn: ast.FunctionDef) -> None:
+    """`for x in xs: if c: break; …` with a pure `c` that does not mention `x`: once `c` holds nothing changes any more (a
+    skipped iteration leaves every variable as it is, so `c` holds again at the next one), hence `break` = `continue` —
+    provided the loop has no `else` and `x` is not read after the loop."""
+    for lp in [n for n in ast.walk(fn) if isinstance(n, ast.For)]:
+        body = _no_doc(list(lp.body))
+        if lp.orelse or not body or not isinstance(body[0], ast.If):
+            continue
+        first = body[0]
+        if first.orelse or len(first.body) != 1 or not isinstance(first.body[0], ast.Break) or not _is_pure(first.test):
+            continue
+        tg = _bind_names(lp.target)
+        if _loaded_names(first.test) & tg:
+            continue
+        inside = {id(x) for st in lp.body for x in ast.walk(st)}
+        if any(isinstance(x, ast.Name) and x.id in tg and isinstance(x.ctx, ast.Load) and id(x) not in inside for x in ast.walk(fn)):
+            continue
+        first.body = [ast.copy_location(ast.Continue(), first.body[0])]
+
+
 def _norm_block(stmts: list[ast.stmt]) -> list[ast.stmt]:
     """AnnAssign -> Assign; `match` on boolean tests -> if-tree; guard clauses -> if/else; recursively."""
     out: list[ast.stmt] = []
@@ -440,6 +601,12 @@ def _norm_block(stmts: list[ast.stmt]) -> list[ast.stmt]:
             if s.value is None:
                 continue
             s = ast.copy_location(ast.Assign(targets=[s.target], value=s.value), s)
+        if isinstance(s, ast.Assign) and len(s.targets) == 1 and isinstance(s.targets[0], (ast.Tuple, ast.List)) \
+                and len(s.targets[0].elts) == 1 and isinstance(s.targets[0].elts[0], ast.Name) and _is_pure(s.value):
+            # `(x,) = xs` (exactly one element, checked by Python) = `x = next(iter(xs))`
+            one = ast.Call(func=ast.Name(id="next", ctx=ast.Load()),
+                           args=[ast.Call(func=ast.Name(id="iter", ctx=ast.Load()), args=[s.value], keywords=[])], keywords=[])
+            s = ast.copy_location(ast.Assign(targets=[s.targets[0].elts[0]], value=one), s)
         if isinstance(s, ast.If):
             body, orelse = _norm_block(s.body), _norm_block(s.orelse)
             rest = stmts[i + 1:]
@@ -452,7 +619,8 @@ def _norm_block(stmts: list[ast.stmt]) -> list[ast.stmt]:
             out.append(ast.copy_location(ast.If(test=s.test, body=body, orelse=orelse), s))
         elif isinstance(s, (ast.For, ast.While)):
             t = copy.copy(s)
-            t.body = _norm_block(s.body)
+            body = _no_doc(list(s.body))
+            t.body = _norm_block(body)
             t.orelse = _norm_block(s.orelse)
             out.append(t)
         else:
@@ -794,14 +962,305 @@ def _expand(node: ast.AST, flows: list[_Flow], roles: set[int], site: ast.stmt |
     return new or node
 
 
-def _norm_func(tree: ast.AST, name: str) -> ast.FunctionDef:
-    fn = copy.deepcopy(_func(tree, name))
-    _inline_procedures(fn, _class_of(tree, name))
-    fn = _InlineHelpers(_class_of(tree, name)).visit(fn)
+
+def _inline_bool_locals(fn: ast.FunctionDef) -> None:
+    """`flag = <pure test>` read any number of times while the test still has the same value: the test is put back at
+    every use (a boolean local is never a role)."""
+    for _ in range(50):
+        fl = _Flow(fn)
+        done = False
+        for d in fl.stmts:
+            if not (isinstance(d, ast.Assign) and len(d.targets) == 1 and isinstance(d.targets[0], ast.Name) and _is_boolish(d.value)):
+                continue
+            x = d.targets[0].id
+            if fl.single_pure_def(x) is not d:
+                continue
+            uses = [n for n in ast.walk(fn) if isinstance(n, ast.Name) and n.id == x and isinstance(n.ctx, ast.Load)]
+            if not uses or any(id(u) not in fl.owner for u in uses):
+                continue
+            if not all(fl.same_value(d, fl.owner[id(u)], d.value) for u in uses):
+                continue
+            ok = True
+            for u in uses:
+                ok = ok and _replace_node(fl.owner[id(u)], u, copy.deepcopy(d.value))
+            if not ok:
+                raise Bad(f"boolean local {x}: could not be put back")
+            blk, i = fl.block[id(d)]
+            del blk[i]
+            if not blk:
+                blk.append(ast.Pass())
+            done = True
+            break
+        if not done:
+            return
+
+
+def _lift_ifexp(stmts: list[ast.stmt]) -> list[ast.stmt]:
+    """`x = (a if c else b) - m` -> `if c: x = a - m else: x = b - m`; `(f if c else g)(args)` -> `f(args) if c else g(args)`
+    (pure tests only; the statement's own value must be pure apart from the one call whose callee is the conditional)."""
+    out: list[ast.stmt] = []
+    for s in stmts:
+        for f in ("body", "orelse", "finalbody"):
+            sub = getattr(s, f, None)
+            if isinstance(sub, list) and sub and isinstance(sub[0], ast.stmt):
+                setattr(s, f, _lift_ifexp(sub))
+        if not isinstance(s, (ast.Assign, ast.AugAssign, ast.Return, ast.Expr)) or getattr(s, "value", None) is None:
+            out.append(s)
+            continue
+        v = s.value
+        # callee conditional
+        for c in ast.walk(v):
+            if isinstance(c, ast.Call) and isinstance(c.func, ast.IfExp) and _is_pure(c.func.test):
+                a, b = copy.copy(c), copy.copy(c)
+                a.func, b.func = c.func.body, c.func.orelse
+                new = ast.copy_location(ast.IfExp(test=c.func.test, body=a, orelse=b), c)
+                if c is v:
+                    s.value = v = new
+                else:
+                    _replace_node(s, c, new)
+                break
+        hit = None
+        stack = [v]
+        while stack and hit is None:
+            n = stack.pop(0)
+            if isinstance(n, (ast.Lambda, ast.GeneratorExp, ast.ListComp, ast.SetComp, ast.DictComp)):
+                continue
+            if isinstance(n, ast.IfExp) and _is_pure(n.test):
+                hit = n
+                break
+            stack.extend(ast.iter_child_nodes(n))
+        rest_pure = hit is not None and (hit is v or _is_pure(_with(v, hit, ast.Constant(value=0))))
+        if hit is None or not rest_pure:
+            out.append(s)
+            continue
+        s1, s2 = copy.deepcopy(s), copy.deepcopy(s)
+        # locate the copies of `hit` by position (same traversal order)
+        idx = [i for i, n in enumerate(ast.walk(s)) if n is hit][0]
+        h1 = list(ast.walk(s1))[idx]
+        h2 = list(ast.walk(s2))[idx]
+        if h1 is s1.value:
+            s1.value, s2.value = h1.body, h2.orelse
+        else:
+            _replace_node(s1, h1, h1.body)
+            _replace_node(s2, h2, h2.orelse)
+        out.extend(_lift_ifexp([ast.copy_location(ast.If(test=hit.test, body=[s1], orelse=[s2]), s)]))
+    return out
+
+
+def _with(root: ast.AST, old: ast.AST, new: ast.AST) -> ast.AST:
+    idx = [i for i, n in enumerate(ast.walk(root)) if n is old][0]
+    r = copy.deepcopy(root)
+    o = list(ast.walk(r))[idx]
+    if o is r:
+        return new
+    _replace_node(r, o, new)
+    return r
+
+
+# ---- decision trees of nested `if`s
+def _atom_key(e: ast.expr) -> str:
+    """`a > b` and `b < a` (and `a >= b` / `b <= a`) are the same test"""
+    if isinstance(e, ast.Compare) and len(e.ops) == 1 and isinstance(e.ops[0], (ast.Gt, ast.GtE)):
+        op = ast.Lt() if isinstance(e.ops[0], ast.Gt) else ast.LtE()
+        e = ast.Compare(left=e.comparators[0], ops=[op], comparators=[e.left])
+    return ast.unparse(e)
+
+
+def _test_atoms(e: ast.expr, acc: list[ast.expr]) -> None:
+    if isinstance(e, ast.BoolOp):
+        for v in e.values:
+            _test_atoms(v, acc)
+    elif isinstance(e, ast.UnaryOp) and isinstance(e.op, ast.Not):
+        _test_atoms(e.operand, acc)
+    elif isinstance(e, ast.Compare) and len(e.ops) > 1:
+        left = e.left
+        for op, right in zip(e.ops, e.comparators):
+            _test_atoms(ast.Compare(left=left, ops=[op], comparators=[right]), acc)
+            left = right
+    elif isinstance(e, ast.Compare) and isinstance(e.ops[0], ast.NotEq):
+        _test_atoms(ast.Compare(left=e.left, ops=[ast.Eq()], comparators=e.comparators), acc)
+    else:
+        if _atom_key(e) not in [_atom_key(a) for a in acc]:
+            acc.append(e)
+
+
+def _eval_test(e: ast.expr, val: dict[str, bool]) -> bool | None:
+    """value of a test under a partial valuation of its atoms (`None`: not determined)"""
+    if isinstance(e, ast.BoolOp):
+        vs = [_eval_test(v, val) for v in e.values]
+        if isinstance(e.op, ast.And):
+            return False if False in vs else (None if None in vs else True)
+        return True if True in vs else (None if None in vs else False)
+    if isinstance(e, ast.UnaryOp) and isinstance(e.op, ast.Not):
+        v = _eval_test(e.operand, val)
+        return None if v is None else not v
+    if isinstance(e, ast.Compare) and len(e.ops) > 1:
+        left, vs = e.left, []
+        for op, right in zip(e.ops, e.comparators):
+            vs.append(_eval_test(ast.Compare(left=left, ops=[op], comparators=[right]), val))
+            left = right
+        return False if False in vs else (None if None in vs else True)
+    if isinstance(e, ast.Compare) and isinstance(e.ops[0], ast.NotEq):
+        v = _eval_test(ast.Compare(left=e.left, ops=[ast.Eq()], comparators=e.comparators), val)
+        return None if v is None else not v
+    return val.get(_atom_key(e))
+
+
+def _canon_ifs(stmts: list[ast.stmt]) -> list[ast.stmt]:
+    """Nested `if`s whose arms are again single `if`s form a decision tree over their atomic tests; it is rebuilt with the
+    atoms in order of first appearance, reduced (an atom that does not matter is not tested) and written back with equal
+    arms merged (`if a: X elif b: X else: Y` = `if a or b: X else: Y`, `if a: (if b: X else: Y) else: Y` = `if a and b: X
+    else: Y`).  So how a case distinction is nested, split or spelled (`elif` chains, conditional expressions, De Morgan,
+    guard clauses, swapped operands) does not matter.  Only pure tests; at most 6 atoms."""
+    out: list[ast.stmt] = []
+    for s in stmts:
+        for f in ("body", "orelse", "finalbody"):
+            sub = getattr(s, f, None)
+            if isinstance(sub, list) and sub and isinstance(sub[0], ast.stmt) and not isinstance(s, ast.If):
+                setattr(s, f, _canon_ifs(sub))
+        if not isinstance(s, ast.If):
+            out.append(s)
+            continue
+
+        tests: list[ast.expr] = []
+
+        def collect(n: ast.If) -> None:
+            tests.append(n.test)
+            for arm in (n.body, n.orelse):
+                if len(arm) == 1 and isinstance(arm[0], ast.If):
+                    collect(arm[0])
+
+        collect(s)
+        atoms: list[ast.expr] = []
+        for t in tests:
+            _test_atoms(t, atoms)
+        if not all(_is_pure(t) for t in tests) or len(atoms) > 6:
+            s.body, s.orelse = _canon_ifs(s.body), _canon_ifs(s.orelse)
+            out.append(s)
+            continue
+
+        def leaf_of(n: list[ast.stmt], val: dict[str, bool]):
+            """the block reached under the (partial) valuation, or None if a test on the way is undetermined"""
+            if len(n) == 1 and isinstance(n[0], ast.If):
+                v = _eval_test(n[0].test, val)
+                if v is None:
+                    return None
+                return leaf_of(n[0].body if v else n[0].orelse, val)
+            return n
+
+        def build(k: int, val: dict[str, bool]):
+            lf = leaf_of([s], val)
+            if lf is not None:
+                return ("leaf", lf)
+            if k >= len(atoms):
+                raise Bad("decision tree: undetermined after all atoms")
+            key = _atom_key(atoms[k])
+            hi = build(k + 1, {**val, key: True})
+            lo = build(k + 1, {**val, key: False})
+            if same(hi, lo):
+                return hi
+            return ("if", atoms[k], hi, lo)
+
+        def same(a, b) -> bool:
+            if a[0] != b[0]:
+                return False
+            if a[0] == "leaf":
+                return [ast.dump(x) for x in a[1]] == [ast.dump(x) for x in b[1]]
+            return _atom_key(a[1]) == _atom_key(b[1]) and same(a[2], b[2]) and same(a[3], b[3])
+
+        def neg(e: ast.expr) -> ast.expr:
+            return ast.UnaryOp(op=ast.Not(), operand=e)
+
+        def join(op, a: ast.expr, b: ast.expr) -> ast.expr:
+            vals = (list(a.values) if isinstance(a, ast.BoolOp) and isinstance(a.op, type(op)) else [a]) + \
+                   (list(b.values) if isinstance(b, ast.BoolOp) and isinstance(b.op, type(op)) else [b])
+            return ast.BoolOp(op=op, values=vals)
+
+        def sugar(t):
+            """(test, then-tree, else-tree) with equal arms merged; trees are ("leaf", stmts) or ("node", test, hi, lo)"""
+            if t[0] == "leaf":
+                return t
+            test, hi, lo = t[1], sugar(t[2]), sugar(t[3])
+            changed = True
+            while changed:
+                changed = False
+                if lo[0] == "node" and same2(lo[2], hi):
+                    test, lo, changed = join(ast.Or(), test, lo[1]), lo[3], True
+                elif lo[0] == "node" and same2(lo[3], hi):
+                    test, lo, changed = join(ast.Or(), test, neg(lo[1])), lo[2], True
+                elif hi[0] == "node" and same2(hi[3], lo):
+                    test, hi, changed = join(ast.And(), test, hi[1]), hi[2], True
+                elif hi[0] == "node" and same2(hi[2], lo):
+                    test, hi, changed = join(ast.And(), test, neg(hi[1])), hi[3], True
+            return ("node", test, hi, lo)
+
+        def same2(a, b) -> bool:
+            if a[0] != b[0]:
+                return False
+            if a[0] == "leaf":
+                return [ast.dump(x) for x in a[1]] == [ast.dump(x) for x in b[1]]
+            return ast.dump(a[1]) == ast.dump(b[1]) and same2(a[2], b[2]) and same2(a[3], b[3])
+
+        def emit(t) -> list[ast.stmt]:
+            if t[0] == "leaf":
+                return _canon_ifs(copy.deepcopy(t[1]))
+            return [ast.copy_location(ast.If(test=copy.deepcopy(t[1]), body=emit(t[2]) or [ast.Pass()], orelse=emit(t[3])), s)]
+
+        tree = build(0, {})
+        out.extend(emit(sugar(tree)))
+    return out
+
+
+def _positional_calls(fn: ast.FunctionDef, cls: ast.ClassDef | None, tree: ast.AST | None) -> None:
+    """`self.m(b=y, a=x)` -> `self.m(x, y)` for methods of the class / functions of the module with a plain signature
+    (arguments left to their defaults must be the last ones)."""
+    for c in ast.walk(fn):
+        if not isinstance(c, ast.Call) or not c.keywords:
+            continue
+        if isinstance(c.func, ast.Name) and c.func.id in _names_bound(fn.body):
+            continue
+        t = _callee(c, cls, tree)
+        if t is None or any(isinstance(a, ast.Starred) for a in c.args) or any(k.arg is None for k in c.keywords):
+            continue
+        m, params = t
+        given: dict[str, ast.expr] = dict(zip(params, c.args))
+        ok = len(c.args) <= len(params)
+        for k in c.keywords:
+            if k.arg not in params or k.arg in given:
+                ok = False
+            else:
+                given[k.arg] = k.value  # type: ignore[index]
+        n = len(given)
+        if not ok or set(given) != set(params[:n]):
+            continue
+        if len({*map(ast.dump, given.values())}) and not all(_is_pure(v) or isinstance(v, ast.Name) for v in given.values()):
+            # reordering would change the order in which impure arguments are evaluated
+            if [k.arg for k in c.keywords] != params[len(c.args):n]:
+                continue
+        c.args = [given[q] for q in params[:n]]
+        c.keywords = []
+
+
+def _norm_fn(fn: ast.FunctionDef, cls: ast.ClassDef | None, tree: ast.AST | None) -> ast.FunctionDef:
+    """All normalisations of one function (a deep copy is returned)."""
+    fn = copy.deepcopy(fn)
+    _inline_procedures(fn, cls, tree)
+    locals_ = _names_bound(fn.body) | {a.arg for a in fn.args.args}
+    fn = _InlineHelpers(cls, tree, locals_).visit(fn)
+    _positional_calls(fn, cls, tree)
+    _leading_break_to_continue(fn)
     fn.body = _norm_block(fn.body)
+    _inline_single_use(fn)
+    _inline_bool_locals(fn)
+    fn.body = _norm_block(_lift_ifexp(fn.body))
+    fn.body = _canon_ifs(fn.body)
     _inline_single_use(fn)
     ast.fix_missing_locations(fn)
     return fn
+
+
+def _norm_func(tree: ast.AST, name: str) -> ast.FunctionDef:
+    return _norm_fn(_func(tree, name), _class_of(tree, name), tree)
 
 
 # --------------------------------------------------------------------------- conditions
@@ -1008,6 +1467,89 @@ def _items_loop(loop: ast.For, what: str) -> tuple[str, str]:
     raise Bad(f"{what}: expected `for <key>, <value> in <dict>.items()`")
 
 
+def _request_writes(tree: ast.AST, cls_name: str, entry: str) -> list[str]:
+    """What the methods of `cls_name` reachable from `entry` (through `self.<method>(…)` calls, transitively) WRITE into the
+    instance: assignments / augmented assignments / deletions of `self.<attr>`, `self.<attr>[k]`, `self.<attr>.<field>`,
+    calls of a mutating container method on `self.<attr>` — also through a local that is an alias of `self.<attr>`.
+    Empty = the object keeps no state of its own from one request to the next (its collaborators may: they are named in
+    the property's assumptions)."""
+    cls = next((n for n in ast.walk(tree) if isinstance(n, ast.ClassDef) and n.name == cls_name), None)
+    if cls is None:
+        raise Bad(f"class {cls_name} not found")
+    methods = {m.name: m for m in cls.body if isinstance(m, (ast.FunctionDef, ast.AsyncFunctionDef))}
+    if entry not in methods:
+        raise Bad(f"{cls_name}.{entry} not found")
+    reach, todo = [], [entry]
+    while todo:
+        m = todo.pop()
+        if m in reach:
+            continue
+        reach.append(m)
+        for c in ast.walk(methods[m]):
+            if isinstance(c, ast.Attribute) and isinstance(c.value, ast.Name) and c.value.id == "self" and c.attr in methods:
+                todo.append(c.attr)  # called, or handed on as a bound method
+    mutators = {"update", "add", "append", "pop", "setdefault", "clear", "remove", "discard", "extend", "insert", "popitem",
+                "sort", "reverse", "__setitem__", "__delitem__", "appendleft", "popleft"}
+
+    def self_attr(e: ast.AST, aliases: dict[str, str]) -> str | None:
+        """`self.<attr>…` (at least one attribute below `self`) or a local alias of one -> the attribute name"""
+        chain = e
+        while isinstance(chain, (ast.Attribute, ast.Subscript)):
+            inner = chain.value
+            if isinstance(inner, ast.Name):
+                if inner.id == "self" and isinstance(chain, ast.Attribute):
+                    return chain.attr
+                if inner.id in aliases and chain is not e or (inner.id in aliases and isinstance(e, (ast.Subscript, ast.Attribute))):
+                    return aliases[inner.id]
+            chain = inner
+        return None
+
+    out: set[str] = set()
+    for name in sorted(reach):
+        m = methods[name]
+        aliases: dict[str, str] = {}
+        for st in ast.walk(m):
+            if isinstance(st, ast.Assign) and len(st.targets) == 1 and isinstance(st.targets[0], ast.Name) \
+                    and isinstance(st.value, ast.Attribute) and isinstance(st.value.value, ast.Name) and st.value.value.id == "self":
+                aliases[st.targets[0].id] = st.value.attr
+        for st in ast.walk(m):
+            targets: list[ast.AST] = []
+            if isinstance(st, ast.Assign):
+                targets = list(st.targets)
+            elif isinstance(st, (ast.AugAssign, ast.AnnAssign)):
+                targets = [st.target] if not (isinstance(st, ast.AnnAssign) and st.value is None) else []
+            elif isinstance(st, ast.Delete):
+                targets = list(st.targets)
+            elif isinstance(st, (ast.For, ast.AsyncFor)):
+                targets = [st.target]
+            flat: list[ast.AST] = []
+            while targets:
+                t = targets.pop()
+                if isinstance(t, (ast.Tuple, ast.List)):
+                    targets.extend(t.elts)
+                elif isinstance(t, ast.Starred):
+                    targets.append(t.value)
+                else:
+                    flat.append(t)
+            for t in flat:
+                if isinstance(t, (ast.Attribute, ast.Subscript)):
+                    a = self_attr(t, aliases)
+                    if a is not None:
+                        out.add(f"{name}: self.{a} is assigned / stored into")
+            if isinstance(st, ast.Call) and isinstance(st.func, ast.Attribute) and st.func.attr in mutators:
+                recv = st.func.value
+                a = None
+                if isinstance(recv, ast.Name) and recv.id in aliases:
+                    a = aliases[recv.id]
+                elif isinstance(recv, (ast.Attribute, ast.Subscript)):
+                    a = self_attr(ast.Attribute(value=recv, attr=st.func.attr, ctx=ast.Load()), aliases)
+                if a is not None:
+                    out.add(f"{name}: self.{a}.{st.func.attr}(...)")
+            if isinstance(st, (ast.Global, ast.Nonlocal)):
+                out.add(f"{name}: {'global' if isinstance(st, ast.Global) else 'nonlocal'} {', '.join(st.names)}")
+    return sorted(out)
+
+
 # --------------------------------------------------------------------------- instance state
 def _instance_state(tree: ast.AST, cls_name: str) -> tuple[list[str], list[str]]:
     """(attributes `__init__` assigns from its parameters, everything that could carry state from one call on an
@@ -1184,8 +1726,8 @@ def generate(repo: pathlib.Path) -> str:
     queue: list[tuple] = []  # definitions are rendered at the end, when every role expression is known
     flows: list[_Flow] = []
 
-    def add(name: str, node: ast.expr, arity: int, kind: str = "val") -> None:
-        queue.append(("def", name, node, arity, kind))
+    def add(name: str, node: ast.expr, arity: int, kind: str = "val", order: dict | None = None) -> None:
+        queue.append(("def", name, node, arity, kind, order))
 
     def raw(text: str) -> None:
         queue.append(("raw", text))
@@ -1228,9 +1770,11 @@ def generate(repo: pathlib.Path) -> str:
     dict_role = {rv.elts[0].id: "Incl", rv.elts[1].id: "Excl"}  # type: ignore[attr-defined]
     fors = [s for s, _ in _stmts_in(fb.body) if isinstance(s, ast.For)]
     inner = [l for l in fors if any(l in ast.walk(o) and l is not o for o in fors)]
-    inv_var = _one(inner, "_inclusion_exclusion_bounds: inner loop").target
-    if not isinstance(inv_var, ast.Name):
-        raise Bad("_inclusion_exclusion_bounds: inner loop variable")
+    # the inner loop(s) over the inverters of a pair: one, or one per side when the side test was hoisted out of it
+    if not inner or not all(isinstance(l.target, ast.Name) for l in inner) or len({ast.unparse(l.iter) for l in inner}) != 1 \
+            or len(inner) > 2:
+        raise Bad(f"_inclusion_exclusion_bounds: inner loop: expected one loop over the inverters (or one per side), found {len(inner)}")
+    inv_vars = {l.target.id for l in inner}  # type: ignore[attr-defined]
     found: dict[str, ast.expr] = {}
     for s, path in _stmts_in(fb.body):
         if not (isinstance(s, ast.Assign) and isinstance(s.targets[0], ast.Subscript)):
@@ -1249,7 +1793,8 @@ def generate(repo: pathlib.Path) -> str:
                 raise Bad(f"_inclusion_exclusion_bounds: unexpected condition {ast.unparse(test)}")
         if side is None:
             raise Bad("_inclusion_exclusion_bounds: assignment outside the supply/consume branches")
-        who = "inv" if _base_name(t.slice) == inv_var.id else "bat"
+        in_inner = [l for l in inner if any(x is s for x in ast.walk(l))]
+        who = "inv" if in_inner and _base_name(t.slice) == in_inner[0].target.id else "bat"  # type: ignore[attr-defined]
         key = who + dict_role[d] + side
         if key in found:
             raise Bad(f"_inclusion_exclusion_bounds: {key} assigned twice")
@@ -1297,7 +1842,7 @@ def generate(repo: pathlib.Path) -> str:
     if len(cap_v) != 1 or len(soc_v) != 1:
         raise Bad("ratio: operands are no longer a quotient and a pow(...)")
     add("capRatio", cap_v[0], 2)
-    if ast.unparse(soc_v[0].args[1]) != "self._distributor_exponent":  # type: ignore[attr-defined]
+    if ast.unparse(resolve(soc_v[0].args[1])) != "self._distributor_exponent":  # type: ignore[attr-defined]
         raise Bad("soc_factor is no longer pow(<available soc>, self._distributor_exponent)")
     raw("/-- `soc_factor = pow(available_soc[...], self._distributor_exponent)` (natural exponents; "
         "`pow(0.0, 0) = 1`) -/\ndef socFactor (a : Rat) (e : Nat) : Rat := a ^ e\n")
@@ -1406,9 +1951,11 @@ def generate(repo: pathlib.Path) -> str:
         raise Bad("three-way branch: excess dict roles")
     if len(over[1]) != 1 or len(defi[1]) != 2 or len(inr[1]) != 2 or defi[1][0][0] is not over[1][0][0]:
         raise Bad("three-way branch: the inclusion test must be decided first, then the minimum-power test")
-    add("overIncl", _cond(over[1], "over test"), 2, "prop")
+    is_share_var = lambda src: src == v_share  # noqa: E731
+    is_deficit_var = lambda src: src == v_deficit  # noqa: E731
+    add("overIncl", _cond(over[1], "over test"), 2, "prop", {0: is_share_var})
     add("excessOver", over[0].value, 2)
-    add("underMin", _cond(defi[1], "under test", last_only=True), 2, "prop")
+    add("underMin", _cond(defi[1], "under test", last_only=True), 2, "prop", {0: is_share_var})
     add("deficitOf", defi[0].value, 2)
     add("excessIn", inr[0].value, 2)
     stored = _one([c for s, p in main if not p for c in ast.walk(s) if _is_call(c, "_Power")], "_Power(...) of the main arm")
@@ -1444,7 +1991,7 @@ def generate(repo: pathlib.Path) -> str:
         raise Bad("largest is no longer max(<excess dict>.items(), key=<second component>)")
     cov_aug = _one([(s, p) for s, p in ws if isinstance(s, ast.AugAssign) and isinstance(s.op, ast.Add)
                     and isinstance(s.target, ast.Subscript) and _base_name(s.target) == d_excess], "cover: excess[...] += deficit")
-    add("covers", _cond(cov_aug[1], "covers", last_only=True), 2, "prop")
+    add("covers", _cond(cov_aug[1], "covers", last_only=True), 2, "prop", {1: is_deficit_var})
     cov_arm = [s for s, p in ws if p == cov_aug[1]]
     par_arm = [s for s, p in ws if p and p[:-1] == cov_aug[1][:-1] and p[-1][0] is cov_aug[1][-1][0] and p[-1][1] != cov_aug[1][-1][1]]
     add("coverExcess", _aug_as_binop(cov_aug[0]), 2)
@@ -1465,7 +2012,7 @@ def generate(repo: pathlib.Path) -> str:
                 "second left-over branch")
     if len(adj) != 2:
         raise Bad("left-over accounting: expected two `distributed += …`")
-    add("adjFullCond", _cond(full[1], "left-over test 1"), 2, "prop")
+    add("adjFullCond", _cond(full[1], "left-over test 1"), 2, "prop", {1: is_deficit_var})
     add("adjFullInc", full[0].value, 1)
     add("adjPartCond", _cond(part[1], "left-over test 2", last_only=True), 1, "prop")
     add("adjPartInc", part[0].value, 1)
@@ -1497,7 +2044,7 @@ def generate(repo: pathlib.Path) -> str:
     gb = _stmts_in(gl[0].body)
     inc = _one([(s, p) for s, p in gb if isinstance(s, ast.AugAssign) and isinstance(s.op, ast.Add)
                 and isinstance(s.target, ast.Attribute)], "greedy: .power +=")
-    add("greedySkip", _cond(inc[1], "greedy skip", negate=True), 2, "prop")
+    add("greedySkip", _cond(inc[1], "greedy skip", negate=True), 2, "prop", {1: lambda src: src.endswith(".power")})
     add("greedyAdd", _one([s for s, p in gb if isinstance(s, ast.Assign) and _is_call(s.value, "min", 2)], "greedy: min(...)").value, 3)
     add("greedyPowerInc", inc[0].value, 1)
     add("greedyRemDec", _one([s for s, p in gb if isinstance(s, ast.AugAssign) and isinstance(s.op, ast.Sub)
@@ -1558,14 +2105,26 @@ def generate(repo: pathlib.Path) -> str:
     fm2 = norm(mgr, "_distribute_power")
     dv = _one([s for s, p in _stmts_in(fm2.body) if isinstance(s, ast.Assign) and isinstance(s.value, ast.BinOp)
                and isinstance(s.value.op, ast.Sub) and "as_watts()" in ast.unparse(s.value.left)], "manager: distributed value")
-    add("mgrDistributed", dv.value, 2)
+    fm2_flow = flows[-1]
+
+    def is_remaining(src: str) -> bool:
+        """the `remaining_power` attribute of the algorithm's result, or a local whose only definition is that attribute"""
+        if src.endswith(".remaining_power"):
+            return True
+        if src.isidentifier():
+            ds = fm2_flow.defs(src)
+            return (len(ds) == 1 and isinstance(ds[0], ast.Assign) and isinstance(ds[0].value, ast.Attribute)
+                    and ds[0].value.attr == "remaining_power")
+        return False
+
+    add("mgrDistributed", dv.value, 2, order={1: is_remaining})
     pf = _one([n for n in ast.walk(fm2) if _is_call(n, "PartialFailure")], "PartialFailure(...)")
     su = _one([n for n in ast.walk(fm2) if _is_call(n, "Success")], "Success(...)")
     add("mgrSuccessSucceeded", _strip_from_watts(_kwarg(su, "succeeded_power")), 1)
-    add("mgrSuccessExcess", _strip_from_watts(_kwarg(su, "excess_power")), 1)
+    add("mgrSuccessExcess", _strip_from_watts(_kwarg(su, "excess_power")), 1, order={0: is_remaining})
     add("mgrPartialSucceeded", _strip_from_watts(_kwarg(pf, "succeeded_power")), 2)
     add("mgrPartialFailed", _strip_from_watts(_kwarg(pf, "failed_power")), 1)
-    add("mgrPartialExcess", _strip_from_watts(_kwarg(pf, "excess_power")), 1)
+    add("mgrPartialExcess", _strip_from_watts(_kwarg(pf, "excess_power")), 1, order={0: is_remaining})
     gb2 = _func(mgr, "_get_bounds")
     pb = _one([n for n in ast.walk(gb2) if _is_call(n, "PowerBounds")], "_get_bounds: PowerBounds(...)")
     add("advExclLower", _kwarg(pb, "exclusion_lower"), 2)
@@ -1635,6 +2194,12 @@ def generate(repo: pathlib.Path) -> str:
         "arguments of that call only (used by `C02_history_free`). -/\n"
         f"def perCallState : List String := {lean_list(state)}\n")
 
+    raw("/-- What `BatteryManager.distribute_power` and the methods it reaches write into the manager itself (assignments to /\n"
+        "stores into / mutating container calls on `self.<attr>`, also through a local alias).  Empty = the manager keeps no\n"
+        "state of its own from one request to the next: every request reads the component data from the latest-value caches\n"
+        "(fed by the data streams, not by requests) and the health from the status tracker (used by `C02_manager_request_free`). -/\n"
+        f"def managerRequestWrites : List String := {lean_list(_request_writes(mgr, 'BatteryManager', 'distribute_power'))}\n")
+
     roles = {id(q[2]) for q in queue if q[0] == "def"} | {id(q[1]) for q in queue if q[0] == "role"}
     for q in queue:
         if q[0] == "role":
@@ -1642,10 +2207,10 @@ def generate(repo: pathlib.Path) -> str:
         if q[0] == "raw":
             out.append(q[1])
             continue
-        _, name, node, arity, kind = q
+        _, name, node, arity, kind, order = q
         node = _expand(node, flows, roles)
         if kind == "prop":
             node = nnf(node)
-        out.append(lean_def(name, node, arity, kind, ast.unparse(node)))
+        out.append(lean_def(name, node, arity, kind, ast.unparse(node), order))
     out.append("end Extracted.Dist\n")
     return "\n".join(out)
